@@ -123,8 +123,14 @@ def gen_ledger(rng):
             r = D(rng.choice(RATES))
             blocks.append(f'{d} * "fx"\n  Assets:Bank  -{x} {a} @ {r} {b}\n  Assets:Bank  {x * r} {b}\n')
         elif kind == 'price':
-            base, quote = rng.choice([('HOOL', 'USD'), ('HOOL', 'USD'), ('ACME', 'EUR'), ('ACME', 'USD'), ('USD', 'EUR'),
-                                      ('EUR', 'USD'), ('VTI', 'USD'), ('HOOL', 'EUR')])
+            r = rng.random()
+            if lots and r < 0.5:
+                l = rng.choice(lots)        # a held commodity in its cost currency: value() and the via path of convert()
+                base, quote = l[1], l[4]
+            elif r < 0.75:
+                base, quote = rng.choice([('USD', 'EUR'), ('EUR', 'USD')])
+            else:
+                base, quote = rng.choice([('HOOL', 'USD'), ('ACME', 'EUR'), ('ACME', 'USD'), ('VTI', 'USD'), ('HOOL', 'EUR')])
             blocks.append(f'{d} price {base}  {rng.choice(RATES)} {quote}\n')
         else:
             blocks.append(f'{d} * "zero"\n  Expenses:Fees  0.00 {rng.choice(CASH)}\n  Assets:Bank  0 {rng.choice(CASH)}\n')
@@ -897,7 +903,7 @@ def shrink_case(case, kind, chk_sql):
 
 
 def run(tier, rng):
-    n = int(os.environ.get('C12_N', 0)) or (140 if tier == 'quick' else 1200)
+    n = int(os.environ.get('C12_N', 0)) or (240 if tier == 'quick' else 1200)
     os.makedirs(TMP, exist_ok=True)
     cases = make_cases(rng, n, tier)
     results = evaluate(cases, 'c12')
